@@ -254,6 +254,7 @@ def check_config(cfg, w, rep):
     prog = w.prog
     is_async = not cfg.startswith("sync")
     _import_c02(cfg, w, rep)
+    check_async_flush(cfg, w, rep)
     n_src = 0
     n_tol = 0
     for lf in prog.fns.values():
@@ -417,6 +418,41 @@ def discard_kind(prog, b, blk, t):
         if not frontier:
             break
     return "dropped"
+
+
+def check_async_flush(cfg, w, rep):
+    """R5: a write on one of the runtimes' files only queues the bytes (tokio: hands them to a blocking task; async-std:
+    fills a cache) — its failure is reported by the next flush. So no success return may be reachable from such a write
+    without passing flush(..).await on the same handle; sync_all / drop do not report the write's error."""
+    prog = w.prog
+    n = 0
+    for lf in prog.fns.values():
+        body = lf.body
+        effs = [e for e in w.own_effects(lf) if e.kind == "WriteData" and e.body is body and e.term.callee is not None
+                and "AsyncWriteExt::" in e.term.callee.path
+                and re.search(r"^(tokio|async_std)::fs::File$", (e.term.callee.self_ty or "").lstrip("&").replace("mut ", ""))]
+        writes = [e for e in effs if e.flags.get("op") != "flush"]
+        if not writes:
+            continue
+        cf = prog.cfg(body)
+        succ = [rd for rd in ret_defs(prog, body) if rd.cls in ("success", "unknown", "delegated")]
+        for e in writes:
+            n += 1
+            flushes = {f.blk for f in effs if f.flags.get("op") == "flush" and f.classes.get("handle") == e.classes.get("handle")}
+            reach = cf.reachable(e.blk, cut_nodes=flushes)
+            bad = [rd for rd in succ if rd.blk in reach]
+            key = "%s:%s" % (fn_key(lf), e.flags.get("op"))
+            if bad:
+                rep.violation("R5:%s" % key,
+                              "`%s` can report success after `%s` on a %s without flushing it: the runtime only queues the write, and its "
+                              "failure (ENOSPC, EIO ...) is reported by flush() alone — it would go unreported" % (
+                                  short(lf.path), e.flags.get("op"), e.term.callee.self_ty), loc=e.loc(), config=cfg, rule="R5-async-flush",
+                              witness="write at %s -> return at %s" % (e.loc(), blk_loc(body, bad[0].blk)))
+            else:
+                rep.ob(cfg, "R5-async-flush", key, "every success return of `%s` after its async %s passes flush().await on the same file" % (
+                    short(lf.path), e.flags.get("op")))
+    if not cfg.startswith("sync"):
+        rep.floor("async_file_writes", n, 1, cfg)
 
 
 def _import_c02(cfg, w, rep):
